@@ -625,6 +625,10 @@ fn socket_loop_exploration(rep: &mut Report, depth: usize) {
         let path = dir.join(format!(".c18-{}-{j}.sock", std::process::id()));
         let path = path.to_str().unwrap().to_string();
         for &(c, sq) in chunks[j] {
+            // a failing run may have to wait out its read timeout: a dozen counterexamples are enough
+            if fails.lock().unwrap().len() >= 12 {
+                break;
+            }
             if let Err(f) = socket_loop_one(&rt, &path, &cx, &cfgs[c], &alpha, &seqs[sq]) {
                 // confirm on a second run before it counts
                 let again = socket_loop_one(&rt, &path, &cx, &cfgs[c], &alpha, &seqs[sq]);
@@ -638,6 +642,9 @@ fn socket_loop_exploration(rep: &mut Report, depth: usize) {
     });
     rep.traces += jobs.len() as u64;
     rep.transitions += jobs.iter().map(|(_, s)| seqs[*s].len() as u64 + 1).sum::<u64>();
+    if fails.lock().unwrap().len() >= 12 {
+        rep.exhaustive = false;
+    }
     rep.set("socket_loop", json!({"alphabet": alpha.iter().map(|a| a.0).collect::<Vec<_>>(), "depth": depth, "sequences": seqs.len(), "start_configurations": cfgs.len(), "runs": jobs.len()}));
     let mut fl = fails.into_inner().unwrap();
     fl.sort_by_key(|x| (seqs[x.1].len(), x.1, x.0));
